@@ -115,6 +115,15 @@ CHECKS = {
              "compared after restore with a reviewed allow-list; evaluation counts and timings are checked cumulatively against the call log; C01/C03/C05 monitors stay armed.",
         note="flow weights are outside the property's list and only reloaded; fields allowed to differ are listed with reasons in vlib/digest.py and counted in the evidence",
         ref="DESIGN.md §3 C12"),
+    "C13": dict(
+        cat="fault_enumeration", technique="schedule enumeration: the real signal handler invoked from a trace hook before each source line of the sampling loop, fresh resume under conservation/count monitors; real signals to child processes",
+        text="~210 (thorough: every line x 4 phases, ~1500) delivered injections over 16 standard-sampler and 12 INS functions: FlowSampler.safe_exit(signum, frame) is called "
+             "before the chosen line at phases covering the first iteration, uninformed sampling, the switch/first training and late flow sampling; the SystemExit code, "
+             "conservation of every live/discarded point at resume, count identities (samples / integral state / insertion indices), and the completed run under the "
+             "C01/C03/C05 monitors are checked; for INS the iteration-boundary checkpoint's hash must be unchanged by the handler. Real SIGTERM/SIGINT/SIGALRM are delivered "
+             "with os.kill to child processes and the process exit status is compared with the configured code.",
+        note="line granularity on the main thread (CPython runs Python-level handlers at bytecode boundaries; a signal inside a C call is deferred to the next boundary); "
+             "the three interruption states of the non-restartable replace step are listed known findings decided by state predicates", ref="DESIGN.md §3 C13"),
 }
 
 PENDING_REASON = "check designed in DESIGN.md but not yet built/calibrated in this session; not claimed until its monitor is silent on the unchanged tree"
